@@ -1,7 +1,133 @@
-//! CoppockCurve — reference model (TODO).
+//! CoppockCurve. Doc: 2 values — `Main value`, `Signal line`. Linked formula (wikipedia):
+//!   Coppock = WMA[10] of (ROC[14] + ROC[11]); generalised by the config: main = ma1(ROC[period2] + ROC[period3]),
+//!   ROC[n] = (x - x[-n]) / x[-n]; signal line = s3_ma(main).
+//! 3 signals — #0 main crosses the zero line (up: full buy, down: full sell);
+//!             #1 reverse points of the main value (s2_left, s2_right);
+//!             #2 main crosses the signal line (up: full buy, down: full sell).
 use super::*;
 
-/// returns None until the reference is written
-pub fn make(_cfg: &Cfg, _c0: &RC) -> Option<Box<dyn IndRef>> {
-	None
+#[derive(Clone)]
+struct Coppock {
+	src: String,
+	roc2: rm::Win,
+	roc3: rm::Win,
+	ma1: SafeMa,
+	sig: SafeMa,
+	x0: CrossD,
+	rev_hi: Rev,
+	rev_lo: Rev,
+	first: bool,
+	x2: CrossD,
+	/// length of the pivot window (left + right + 1)
+	span: usize,
+	/// steps since the indicator last returned a non-finite main value / signal line (saturating)
+	main_ok: usize,
+	sig_ok: usize,
+}
+
+/// `false`: signal 2 as documented (reverse points of the main value over the c0-padded history).
+/// `true`: emulate the crate's `ReversalSignal` when its first input differs from its construction value
+/// (position 0 is credited with max(construction value, first input) by the upper detector and with the min
+/// by the lower detector) — only for diagnosis, see the report; not the documented behaviour.
+const EMULATE_FIRST_INPUT_QUIRK: bool = false;
+
+/// a moving average that tolerates undefined inputs for every kind: the median kind sorts its window and
+/// cannot hold an undefined element, so it is fed a placeholder and reported undefined while the
+/// placeholder is among its last n inputs (which is what "median of a window with an undefined element" is)
+#[derive(Clone)]
+struct SafeMa {
+	ma: Box<dyn rm::RefVV>,
+	/// Some((n, number of consecutive defined inputs, saturating at n)) for the median kind
+	smm: Option<(usize, usize)>,
+}
+impl SafeMa {
+	fn new(cfg: &Cfg, key: &str, pad: Q) -> Self {
+		let (kind, n) = cfg.ma(key);
+		if kind == "smm" {
+			let clean = if pad.is_defined() { n } else { 0 };
+			let p = if pad.is_defined() { pad } else { Q::exact(0.0) };
+			Self { ma: cfg.ma_ref(key, p), smm: Some((n, clean)) }
+		} else {
+			Self { ma: cfg.ma_ref(key, pad), smm: None }
+		}
+	}
+	fn step(&mut self, x: Q) -> Q {
+		match &mut self.smm {
+			None => self.ma.stepq(x),
+			Some((n, clean)) => {
+				if x.is_defined() {
+					*clean = (*clean + 1).min(*n);
+					let y = self.ma.stepq(x);
+					if *clean < *n {
+						Q::undefined()
+					} else {
+						y
+					}
+				} else {
+					*clean = 0;
+					self.ma.stepq(Q::exact(0.0));
+					Q::undefined()
+				}
+			}
+		}
+	}
+}
+
+pub fn make(cfg: &Cfg, c0: &RC) -> Option<Box<dyn IndRef>> {
+	let src = cfg.src("source");
+	let s0 = source(c0, &src);
+	// rate of change of a constant is 0 (0/0 when the constant itself is 0: undefined)
+	let roc0 = (s0 - s0) / s0;
+	let pad = if roc0.is_defined() { Q::exact(0.0) } else { Q::undefined() };
+	Some(Box::new(Coppock {
+		roc2: rm::Win::new_q(rm::WinKind::Roc, cfg.int("period2"), s0),
+		roc3: rm::Win::new_q(rm::WinKind::Roc, cfg.int("period3"), s0),
+		ma1: SafeMa::new(cfg, "ma1", pad),
+		sig: SafeMa::new(cfg, "s3_ma", pad),
+		// prehistory: main = 0, signal line = 0
+		x0: CrossD::new(0.0),
+		rev_hi: Rev::new(cfg.int("s2_left"), cfg.int("s2_right"), 0.0),
+		rev_lo: Rev::new(cfg.int("s2_left"), cfg.int("s2_right"), 0.0),
+		first: true,
+		x2: CrossD::new(0.0),
+		span: cfg.int("s2_left") + cfg.int("s2_right") + 1,
+		main_ok: usize::MAX,
+		sig_ok: usize::MAX,
+		src,
+	}))
+}
+
+impl IndRef for Coppock {
+	fn values(&mut self, c: &RC) -> Vec<Q> {
+		let s = source(c, &self.src);
+		let r = self.roc2.step(s) + self.roc3.step(s);
+		let main = self.ma1.step(r);
+		let sig = self.sig.step(main);
+		vec![main, sig]
+	}
+	fn signals(&mut self, _c: &RC, own: &[f64]) -> Vec<Sig> {
+		let (main, sig) = (own[0], own[1]);
+		let s0 = sig_sign(self.x0.cross(main, 0.0));
+		// † follows the implementation: the documentation of signal 2 breaks off after "When top reverse point
+		// appears,"; the direction is the one of the crate's ReversalSignal (lower pivot: buy, upper pivot: sell)
+		let (mut for_hi, mut for_lo) = (main, main);
+		if EMULATE_FIRST_INPUT_QUIRK && self.first {
+			for_hi = main.max(0.0);
+			for_lo = main.min(0.0);
+		}
+		self.first = false;
+		self.rev_hi.0.push(for_hi);
+		self.rev_lo.0.push(for_lo);
+		let s1 = sig_sign(self.rev_lo.0.lower() as i32 - self.rev_hi.0.upper() as i32);
+		let s2 = sig_sign(self.x2.cross(main, sig));
+		// the rules speak about numbers: where the indicator's own values are not numbers (division by a zero
+		// source value in the rate of change) they determine nothing for as long as such a value is involved
+		self.main_ok = if main.is_finite() { self.main_ok.saturating_add(1) } else { 0 };
+		self.sig_ok = if sig.is_finite() { self.sig_ok.saturating_add(1) } else { 0 };
+		let s0 = if self.main_ok <= 1 { Sig::Any } else { s0 };
+		let s1 = if self.main_ok < self.span { Sig::Any } else { s1 };
+		let s2 = if self.main_ok <= 1 || self.sig_ok <= 1 { Sig::Any } else { s2 };
+		vec![s0, s1, s2]
+	}
+	indref!(Coppock);
 }
